@@ -766,6 +766,21 @@ func (e *ConstEval) call(fn *ssa.Function, res *CEResult, c *ssa.Call, args []CV
 		if b.Name() == "len" && len(args) == 1 && args[0].K == CNil {
 			return IntV(0)
 		}
+		if (b.Name() == "min" || b.Name() == "max") && len(args) >= 1 {
+			best := args[0]
+			for _, a := range args {
+				if a.K != CConst || (a.C.Kind() != constant.Int && a.C.Kind() != constant.Float) {
+					return Top
+				}
+				if f, _ := constant.Float64Val(constant.ToFloat(a.C)); f != f {
+					return Top // NaN: the builtins propagate it
+				}
+				if b.Name() == "min" && constant.Compare(a.C, token.LSS, best.C) || b.Name() == "max" && constant.Compare(a.C, token.GTR, best.C) {
+					best = a
+				}
+			}
+			return best
+		}
 		return Top
 	}
 	var callee *ssa.Function
